@@ -440,6 +440,16 @@ def sd9(F, R):
             ok_seq = ok_seq and r2[0] == "var" and fn.locals[r2[1]]["ty"] == "[u8; 2]"
             ok_seq = ok_seq and guarded(fn, b, g_try_ok("SdCardInner::transfer_bytes"))[0]
         R.require(ok_seq, fn, "payload-then-crc", "read_data must transfer the payload into the caller's buffer and then exactly two CRC bytes on every Ok path (in both CRC modes)", fn.loc(b, i))
+    # the token wait takes the FIRST non-0xFF byte: only an idle byte (0xFF) may keep the loop going
+    tl = [(h, body, backs) for (h, body, backs) in fn.loops() if any(fn.term(x)["k"] == "Call" and call_matches(fn.term(x), ("SdCardInner::read_byte",)) for x in body)]
+    R.require(len(tl) == 1, fn, "token-loop", "expected one token wait loop in read_data", fn.loc(0))
+    for (h, body, backs) in tl:
+        idle = lambda g: g.kind == "bool" and g.truth is True and g.term[0] == "cmp" and g.term[1] == "Eq" and g.term[3][:2] == ("c", 0xFF) and has_sub(g.term[2], lambda q: q[0] == "call" and q[1] and path_matches(q[1], "SdCardInner::read_byte"))
+        edges = [(gb, gi) for (gb, gi, g) in all_guards(fn) if gb in body and idle(g)]
+        again = [bs for bs in backs if bs in fn.reach([h], cut_edges=edges, cut_blocks=[x for x in fn.live_blocks() if x not in body])]
+        R.require(bool(edges) and not again, fn, "first-non-ff", "the token wait can go round again after a byte other than 0xFF: an unexpected token (error token, junk) is skipped instead of being reported, and whatever follows a later 0xFE is taken as the block", fn.loc(h))
+    errs = [x for x in err_returns(fn, adt="Error") if x[2] == "ReadError"]
+    R.require(len(errs) >= 1 and all(guarded(fn, x[0], g_cmp("Eq", False, None, lambda z: z[0] == "c" and z[2] and z[2].endswith("DATA_START_BLOCK")))[0] for x in errs), fn, "unexpected-token-error", "a first byte that is neither 0xFF nor DATA_START_BLOCK must give Err(ReadError)", fn.loc(0))
     # crc16 is computed over the same buffer, crc from the two bytes
     for bb, t in fn.calls():
         if call_matches(t, ("sdcard::proto::crc16",)):
@@ -618,6 +628,12 @@ def sd12(F, R):
             v = d.term_of_rvalue(s["rv"], b)
             dec = tmatch(v, ("bin", "Sub", "_", ("c", 1))) is not None
     R.require(zero_err and dec, d, "ranking", "Delay::delay must fail when retries_left == 0 and otherwise decrement it", d.loc(0))
+    # ... in that order: the decrement happens only after the counter was seen to be non-zero (a budget of 0 must fail, not wrap to 2^32-1)
+    for b, i, s in d.stmts():
+        if s["k"] == "Assign" and s["p"]["proj"] and "retries_left" in d.place_str(s["p"]):
+            g, _ = guarded(d, b, lambda g: g.kind == "bool" and g.term[0] == "cmp" and g.term[1] == "Eq" and g.truth is False and "retries_left" in tstr(g.term[2]) and g.term[3][:2] == ("c", 0))
+            g2, _ = guarded(d, b, lambda g: g.kind == "bool" and g.term[0] == "cmp" and g.term[1] in ("Gt", "Ne") and g.truth is True and "retries_left" in tstr(g.term[2]) and g.term[3][:2] == ("c", 0))
+            R.require(g or g2, d, "test-before-decrement", "Delay::delay decrements retries_left before testing it for zero: with a budget of 0 (AcquireOpts::acquire_retries = 0) the counter underflows - a panic, or 2^32-1 retries (an effectively unbounded wait)", d.loc(b, i))
     for nm, cst in (("new_read", "DEFAULT_READ_RETRIES"), ("new_write", "DEFAULT_WRITE_RETRIES"), ("new_command", "DEFAULT_COMMAND_RETRIES")):
         v = F.const("sdcard::Delay::" + cst)
         R.require(0 < v < 2 ** 32 - 1, None, "finite:" + cst, "%s must be a finite retry count" % cst, okdetail="%s = %d" % (cst, v))
